@@ -149,11 +149,13 @@ func readCableLabsEbp(data []byte) (ebp *cableLabsEbp, err error) {
 		index += uint8(1)
 	}
 
-	if index < ebp.DataFieldLength+2 {
-		if int(ebp.DataFieldLength+2) > len(data) {
+	// computed as int: DataFieldLength+2 does not fit a uint8 for lengths 254 and 255
+	end := int(ebp.DataFieldLength) + 2
+	if int(index) < end {
+		if end > len(data) {
 			return nil, gots.ErrInvalidEBPLength
 		}
-		ebp.ReservedBytes = data[index : ebp.DataFieldLength+2]
+		ebp.ReservedBytes = data[index:end]
 	}
 
 	// update the successful read time
